@@ -34,6 +34,9 @@ pub struct Case {
     pub tail: Vec<TailOp>,
     /// extra lookup strings
     pub strings: Vec<String>,
+    /// some items carry public ids of the form "!A2" (see Machine::tempid_ids)
+    #[serde(default)]
+    pub tempid_ids: bool,
 }
 
 fn tail_strategy() -> BoxedStrategy<Vec<TailOp>> {
@@ -53,6 +56,8 @@ fn strings_strategy() -> BoxedStrategy<Vec<String>> {
     let letters = proptest::sample::select(vec!["A", "R", "S", "K", "D", "I", "T", "X", "Z", "É", "a", "r", "", "😀"]);
     let tails = proptest::sample::select(vec![
         "0", "1", "2", "3", "5", "9", "", "x", "1x", "-1", "99999999999999999999999", " 1", "1 ", "É", "٣",
+        // numbers that wrap onto small handles when truncated to 16, 32 or 64 bits
+        "65536", "65537", "65538", "4294967296", "4294967297", "4294967298", "18446744073709551616", "18446744073709551617",
     ]);
     let temp = (letters, tails).prop_map(|(l, t)| format!("!{}{}", l, t));
     let arb = "\\PC{0,6}";
@@ -286,14 +291,18 @@ impl Property for C03 {
             complex_weight: 1,
             ..HistCfg::default()
         };
-        (history_strategy(cfg), tail_strategy(), strings_strategy())
-            .prop_map(|(hist, tail, strings)| Case { hist, tail, strings })
+        (history_strategy(cfg), tail_strategy(), strings_strategy(), proptest::bool::weighted(0.4))
+            .prop_map(|(hist, tail, strings, tempid_ids)| Case { hist, tail, strings, tempid_ids })
             .boxed()
     }
 
     fn run(&self, case: &Case) -> Outcome {
         let mut out = Outcome::new();
         let mut m = Machine::new(case.hist.hostile);
+        m.tempid_ids = case.tempid_ids;
+        if case.tempid_ids {
+            out.label("public_ids_in_tempid_form");
+        }
         let mut all: BTreeSet<String> = case.strings.iter().cloned().collect();
         // a fixed set of probes that must never resolve or panic
         for s in ["!", "!A", "!É1", "!😀0", "!a0", "!A-1", "!R0", "!S0", "!K0", "!D0", "!I0", "!A0", "!A1", "!A2", "!R1", "!S1", "!K1", "!D1", "!D2", "!T0", "!Z0", "", " ", "é"] {
